@@ -38,6 +38,14 @@ void pfx_table_free_without_notify(struct pfx_table *pfx_table);
 void pfx_table_swap(struct pfx_table *a, struct pfx_table *b);
 
 /**
+ * @brief Swap root nodes of the argument tables without taking the table locks
+ * @details The caller must hold the write locks of both tables.
+ * @param[in,out] a First table
+ * @param[in,out] b second table
+ */
+void pfx_table_swap_locked(struct pfx_table *a, struct pfx_table *b);
+
+/**
  * @brief Copy content of @p src_table into @p dst_table
  * @details dst must be empty and initialized
  * @param[in] src_table Source table
